@@ -525,3 +525,35 @@ Proof.
   - apply Qlt_shift_div_r; [exact P2|]. rewrite E2. change 2 with (inject_Z 2). rewrite <- inject_Z_mult, <- Zlt_Qlt.
     replace (Z.succ l) with (l + 1)%Z in Hi by lia. rewrite Z.pow_add_r in Hi by lia. lia.
 Qed.
+
+(* ---------------- collocation-update switch under re-initialisation ------------------------------- *)
+Lemma bools_eqb_eq x : forall y, bools_eqb x y = true -> x = y.
+Proof.
+  induction x as [|a x IH]; intros [|b y] H; cbn in H; try discriminate; [reflexivity|].
+  apply andb_prop in H as [H1 H2]. apply eqb_prop in H1. rewrite H1, (IH y H2). reflexivity.
+Qed.
+
+(* If the observed flags of a sequence of initialisations of one object pass the check, then after EVERY
+   initialisation i the flag is the function of that call alone: true whenever the right end is not a node,
+   the user's value otherwise — whatever happened in the earlier initialisations. *)
+Theorem check_reinit_sound calls obs : check_reinit calls obs = true ->
+  length obs = length calls /\
+  forall i, (i < length calls)%nat ->
+    let c := nth i calls (true, false) in
+    nth i obs false = upd_flag (fst c) (snd c) /\
+    (fst c = false -> nth i obs false = true) /\
+    (fst c = true -> nth i obs false = snd c).
+Proof.
+  unfold check_reinit. intros H. apply bools_eqb_eq in H. subst obs. unfold reinit_flags.
+  split; [apply map_length|]. intros i Hi. cbv zeta. set (c := nth i calls (true, false)).
+  assert (E : nth i (map (fun c0 : bool * bool => upd_flag (fst c0) (snd c0)) calls) false = upd_flag (fst c) (snd c)).
+  { change false with ((fun c0 : bool * bool => upd_flag (fst c0) (snd c0)) (true, false)). rewrite map_nth. reflexivity. }
+  rewrite E. split; [reflexivity|]. unfold upd_flag. split.
+  - intros Hc. rewrite Hc. apply orb_true_r.
+  - intros Hc. rewrite Hc. cbn. apply orb_false_r.
+Qed.
+
+(* history independence: the flag after a call does not depend on the calls before it *)
+Theorem reinit_history_independent before1 before2 call :
+  last (reinit_flags (before1 ++ [call])) false = last (reinit_flags (before2 ++ [call])) false.
+Proof. unfold reinit_flags. rewrite !map_app. cbn [map]. rewrite !last_last. reflexivity. Qed.
